@@ -17,10 +17,10 @@ from .normdom import NormDomain, Sym, Arr
 
 
 class SeqV(Value):
-    """The requested list of orders: unknown length, ascending; element j is ns[j] + shift."""
+    """The requested list of orders: unknown length, strictly ascending; element j is ns[first + j] + shift."""
 
-    def __init__(self, name='ns', shift=0):
-        self.name, self.shift = name, shift
+    def __init__(self, name='ns', shift=0, first=0):
+        self.name, self.shift, self.first = name, shift, first
 
     def __repr__(self):
         return 'SeqV(%s%+d)' % (self.name, self.shift)
@@ -45,6 +45,35 @@ class Family:
         self.name, self.params, self.p0, self.p1, self.c1, self.c2 = name, params, p0, p1, c1, c2
 
 
+def _loads(node):
+    return {n.id for n in ast.walk(node) if isinstance(n, ast.Name) and isinstance(n.ctx, ast.Load)}
+
+
+def _stores(node):
+    return {n.id for n in ast.walk(node) if isinstance(n, ast.Name) and isinstance(n.ctx, ast.Store)}
+
+
+def live_in(stmts):
+    """Names read in the loop body before they are definitely written (conservative for branches)."""
+    written, live = set(), set()
+    for st in stmts:
+        if isinstance(st, ast.Assign):
+            live |= _loads(st.value) - written
+            for t in st.targets:
+                if not isinstance(t, (ast.Name, ast.Tuple, ast.List)):
+                    live |= _loads(t) - written
+            written |= {n for t in st.targets if isinstance(t, (ast.Name, ast.Tuple, ast.List)) for n in _stores(t)}
+        elif isinstance(st, ast.AugAssign):
+            live |= (_loads(st.value) | _loads(st.target) | _stores(st.target)) - written
+        else:
+            live |= _loads(st) - written
+            # AugAssign inside branches read their target
+            for n in ast.walk(st):
+                if isinstance(n, ast.AugAssign):
+                    live |= _stores(n.target) - written
+    return live
+
+
 class OrderDomain(NormDomain):
     name = 'ORDER'
 
@@ -57,6 +86,8 @@ class OrderDomain(NormDomain):
         self.log = []                     # obligations: dict(kind=..., ok=..., text=..., node=...)
         self.guards = {}                  # cond text -> (lhs value, rhs value)
         self.explicit_cache = {}
+        self._canon_cache = {}
+        self._match_cache = {}
 
     # -- atoms -------------------------------------------------------------
     def fkey(self, fam, pv):
@@ -85,7 +116,26 @@ class OrderDomain(NormDomain):
         return vals[k]
 
     def canon(self, r, fam, pv):
-        """If r equals the reference recurrence at its highest P-atom, return the next atom."""
+        """If r equals the reference recurrence at its highest P-atom, return the next atom (memoised)."""
+        ck = (self.fkey(fam, pv), r.key())
+        if ck in self._canon_cache:
+            return self._canon_cache[ck]
+        out = self._canon(r, fam, pv)
+        self._canon_cache[ck] = out
+        return out
+
+    def match_explicit(self, r, fam, pv):
+        ck = (self.fkey(fam, pv), r.key())
+        if ck not in self._match_cache:
+            hit = None
+            for k in range(0, 5):
+                if r == self.explicit(fam, pv, k):
+                    hit = k
+                    break
+            self._match_cache[ck] = hit
+        return self._match_cache[ck]
+
+    def _canon(self, r, fam, pv):
         fk = self.fkey(fam, pv)
         ats = [a for a in r.atoms() if a in self.patoms and self.patoms[a][0] == fk]
         if len(ats) == 1 and r == Rat(self.R.atom(ats[0])):
@@ -142,6 +192,32 @@ class OrderDomain(NormDomain):
                 return None
         return total
 
+    def on_branch(self, test, truth, frame):
+        """Refine integer lower bounds from failed equality tests: n >= k and n != k  =>  n >= k+1."""
+        if isinstance(test, ast.Compare) and len(test.ops) == 1 and isinstance(test.ops[0], (ast.Eq, ast.NotEq)):
+            is_eq = isinstance(test.ops[0], ast.Eq)
+            if (is_eq and not truth) or (not is_eq and truth):
+                try:
+                    a = self.interp.ev(test.left, frame)
+                    b = self.interp.ev(test.comparators[0], frame)
+                except Exception:
+                    return
+                ra, rb = self.rat(a), self.rat(b)
+                if ra is None or rb is None or not (rb.num.is_const() and rb.den.is_const()) or not ra.den.is_const():
+                    return
+                c = rb.num.const_value() / rb.den.const_value()
+                p = ra.num * (Fraction(1) / ra.den.const_value())
+                if len(p.t) == 1:
+                    (m, k), = p.t.items()
+                    if len(m) == 1 and m[0][1] == 1 and k == 1 and m[0][0] in self.lower and self.lower[m[0][0]] == c:
+                        self.lower[m[0][0]] = c + 1
+
+    def seq_min(self, sv):
+        """Lower bound of the elements of a (sliced, shifted) strictly ascending order list."""
+        base = self.lower.get('%s[0]' % sv.name, 0)
+        own = self.lower.get('%s[%d]' % (sv.name, sv.first), 0)
+        return max(own, base + sv.first) + sv.shift
+
     # -- values ------------------------------------------------------------
     def isinstance(self, v, names):
         if isinstance(v, (SeqV, OutV)):
@@ -173,8 +249,14 @@ class OrderDomain(NormDomain):
         return NormDomain.getattr(self, v, name, node)
 
     def subscript(self, v, idx, node):
+        if isinstance(v, SeqV) and isinstance(idx, Slice):
+            if isinstance(idx.lo, Const) and isinstance(idx.lo.v, int) and idx.lo.v >= 0 and isinstance(idx.hi, Const) and idx.hi.v is None:
+                return SeqV(v.name, v.shift, v.first + idx.lo.v)
+            return Unknown('seq slice')
         if isinstance(v, SeqV):
             ri = self.rat(idx)
+            if ri is not None and v.first:
+                ri = ri + v.first
             if ri is None:
                 return Unknown('seq index')
             nm = '%s[%s]' % (v.name, ri.key())
@@ -221,7 +303,7 @@ class OrderDomain(NormDomain):
                     if d.num.is_const() and d.den.is_const():
                         c = d.num.const_value() / d.den.const_value()
                         if c.denominator == 1:
-                            return SeqV(src.name, src.shift + int(c))
+                            return SeqV(src.name, src.shift + int(c), src.first)
         return None
 
     # -- the loop hook -----------------------------------------------------
@@ -257,31 +339,37 @@ class OrderDomain(NormDomain):
         lv = node.target.id if isinstance(node.target, ast.Name) else None
         if lv is None:
             return False
+        live = live_in(node.body)
         iatom = 'i@%s:%d' % (qual.split('.')[-1], node.lineno)
         self.lower[iatom] = lo_i
         self.R.real[iatom] = True
         ivar = Rat(self.R.atom(iatom))
         head = {}
         entry_vals = {}
+        int_heads = {}
         for nm in sorted(carried):
             if nm == lv or nm not in frame.env:
                 continue
             v = frame.env[nm]
             r = self.rat(v)
             mapped = False
+            if nm not in live:
+                # assigned before it is read in the body: its entry value is dead
+                frame.env[nm] = Unknown('dead at loop head: %s' % nm)
+                continue
             if r is not None and not (isinstance(v, Const) and isinstance(v.v, int) and nm in ('min_i', 'j', 'idx', 'k')):
-                for k in range(0, 5):
-                    if r == self.explicit(fam, pv, k):
-                        head[nm] = k - lo_i
-                        entry_vals[nm] = k
-                        mapped = True
-                        break
+                k = self.match_explicit(r, fam, pv)
+                if k is not None:
+                    head[nm] = k - lo_i
+                    entry_vals[nm] = k
+                    mapped = True
             if mapped:
                 continue
             if isinstance(v, Const) and isinstance(v.v, int):
-                an = '%s@head' % nm
+                an = 'idx%d@head' % v.v          # running indices that enter with the same value stay aliased
                 self.lower[an] = 0
                 frame.env[nm] = self.sym(an)
+                int_heads[nm] = an
             else:
                 frame.env[nm] = Unknown('loop-carried %s' % nm)
         if not head:
@@ -295,12 +383,22 @@ class OrderDomain(NormDomain):
                          'text': 'loop entry (i=%d): %s' % (lo_i, ', '.join('%s = %s[%d]' % (nm, fam, entry_vals[nm]) for nm in sorted(head)))})
         prev_loop = getattr(self, '_in_loop', None)
         self._in_loop = (qual, fam, pv, iatom)
+        nstores0 = len([e for e in it.events if e['kind'] == 'emit'])
         try:
             it.exec_block(node.body, frame)
         except (_Break, _Continue):
             self.log.append({'kind': 'loop', 'ok': False, 'fn': qual, 'node': node, 'text': 'break/continue inside a recurrence loop'})
         finally:
             self._in_loop = prev_loop
+        nst = len([e for e in it.events if e['kind'] == 'emit']) - nstores0
+        for nm, an in sorted(int_heads.items()):
+            v = frame.env.get(nm)
+            r = self.rat(v) if v is not None else None
+            ok = r is not None and r == Rat(self.R.atom(an)) + nst
+            self.log.append({'kind': 'advance', 'ok': ok, 'fn': qual, 'node': node, 'name': nm,
+                             'text': ('running index %s advances by the number of stores (%d) in one iteration' % (nm, nst)) if ok else
+                             ('running index %s goes from %s to %s in an iteration that stores %d mode(s): stores and index are out of step' % (nm, an, r.key() if r is not None else repr(v), nst))})
+        self.log.append({'kind': 'bound', 'ok': True, 'fn': qual, 'node': node, 'text': 'loop range(%d, %s)' % (lo_i, rhi.key()), 'hi': rhi, 'lo': lo_i})
         # invariant: post-state == head state at i+1
         for nm, off in sorted(head.items()):
             v = frame.env.get(nm)
@@ -320,7 +418,7 @@ class OrderDomain(NormDomain):
                 v = frame.env.get(nm)
                 r = self.rat(v) if v is not None else None
                 if isinstance(v, Sym) and any(a.endswith('@head') for a in v.r.atoms()):
-                    frame.env[nm] = self.sym('%s@exit' % nm)
+                    frame.env[nm] = self.sym('idx@exit')
                 elif r is not None and iatom in self._index_atoms(r):
                     got = self.canon(r, fam, pv)
                     if got is not None:
